@@ -196,6 +196,22 @@ def ite(c, a, b):
     return _ite(c, a, b)
 
 
+def ite_val(c, a, b):
+    """If(c, a, b) on Val terms, keeping a common outermost constructor visible: If(c, VStr x, VStr y) is
+    VStr(If(c, x, y)) -- the same value, but type dispatch downstream stays static."""
+    try:
+        if a.sort() == Val and b.sort() == Val and z3.is_app(a) and z3.is_app(b):
+            da, db = a.decl(), b.decl()
+            if da.eq(db) and da.kind() == z3.Z3_OP_DT_CONSTRUCTOR:
+                if a.num_args() == 0:
+                    return a
+                if a.num_args() == 1 and not da.eq(Val.VRef):
+                    return da(z3.If(c, a.arg(0), b.arg(0)))
+    except Exception:
+        pass
+    return z3.If(c, a, b)
+
+
 # --------------------------------------------------------------------------
 # Python semantics of primitive operations on Val terms
 # --------------------------------------------------------------------------
